@@ -136,6 +136,24 @@ Theorem C05_run_zip_latest_matches_source :
   strip_r (Gen.KN_zip_latest.gen_run_zip_latest s p x m) = strip_r (of_option (update (KZipLatest) s p x m)).
 Proof. exact bridge_run_zip_latest. Qed.
 Print Assumptions C05_run_zip_latest_matches_source.
+Theorem C05_update_partition_unique_matches_source :
+  forall n key kl s p x m, pu_inv (st_keyed s) ->
+  option_map strip (Gen.KN_partition_unique.gen_update_partition_unique n key kl s p x m) = option_map strip (update (KPartUnique n key kl) s p x m).
+Proof. exact bridge_update_partition_unique. Qed.
+Print Assumptions C05_update_partition_unique_matches_source.
+Theorem C05_run_partition_unique_matches_source :
+  forall n key kl s p x m, pu_inv (st_keyed s) ->
+  strip_r (Gen.KN_partition_unique.gen_run_partition_unique n key kl s p x m) = strip_r (of_option (update (KPartUnique n key kl) s p x m)).
+Proof. exact bridge_run_partition_unique. Qed.
+Print Assumptions C05_run_partition_unique_matches_source.
+Theorem C05_partition_unique_invariant :
+  forall n key kl s p x m acts s', pu_inv (st_keyed s) -> update (KPartUnique n key kl) s p x m = Some acts -> In (ASet s') acts -> pu_inv (st_keyed s').
+Proof. exact pu_inv_preserved. Qed.
+Print Assumptions C05_partition_unique_invariant.
+Theorem C05_partition_unique_invariant_init :
+  forall n key kl nups, pu_inv (st_keyed (init_state (KPartUnique n key kl) nups)).
+Proof. exact pu_inv_init. Qed.
+Print Assumptions C05_partition_unique_invariant_init.
 (* ---- node bridges (harness/mkprops_nodes.py): end ---- *)
 
 (* ---- generated by harness/mkprops_sync.py: begin ---- *)
